@@ -131,8 +131,9 @@ func ReadEmbeddedConfig(binaryPath string) ([]byte, error) {
 		return nil, ErrNoEmbeddedConfig
 	}
 
-	// Validate config length doesn't exceed file boundaries
-	if int64(configLen) > fileSize-FooterSize {
+	// Validate config length doesn't exceed file boundaries. The comparison is
+	// unsigned: a length with the top bit set must not turn negative.
+	if configLen > uint64(fileSize-FooterSize) {
 		return nil, ErrConfigTooLarge
 	}
 
@@ -265,8 +266,12 @@ func GetOriginalBinarySize(binaryPath string) (int64, error) {
 		return fileSize, nil // No embedded config
 	}
 
-	// Calculate original size
+	// Calculate original size. A length that does not fit in front of the
+	// footer means the trailer is corrupt; never report a size outside the file.
 	configLen := binary.LittleEndian.Uint64(footer[:8])
+	if configLen > uint64(fileSize-FooterSize) {
+		return 0, ErrConfigTooLarge
+	}
 	return fileSize - FooterSize - int64(configLen), nil
 }
 
